@@ -36,7 +36,7 @@ def run_one(e):
         os.makedirs(os.path.join(vdir, "evidence"))
         shutil.copy(os.path.join(VERIF, "known_findings.json"), vdir)
         env = dict(os.environ, VERIF_DIR=vdir)
-        p = subprocess.run([os.path.join(VERIF, "bin/bwcheck"), "check", "-property", e["property"], "-repo", scratch],
+        p = subprocess.run([os.environ.get("BWCHECK", os.path.join(VERIF, "bin/bwcheck")), "check", "-property", e["property"], "-repo", scratch],
                            capture_output=True, text=True, env=env)
         out = p.stdout + p.stderr
         if p.returncode == 2:
